@@ -280,10 +280,11 @@ def sample_spec(rng, tier, k):
         chi0 = min(chi0, min(caps))
     exact = bool(rng.random() < 0.6)
     shift = bool(rng.random() < 0.3)
+    p0cplx = bool(p0 == "random" and rng.random() < 0.35)      # complex state with a real-symmetric operator
     return {"fam": fam, "kind": kind, "cplx": cplx, "L": L, "d": d, "bsz": bsz, "caps": caps, "cuts": cuts,
             "seq": seq, "maxsw": int(rng.choice([3, 4, 6])) if not thorough else int(rng.choice([3, 5, 8])),
             "tol": float(rng.choice([1e-6, 1e-8, 1e-4])), "p0": p0, "chi0": chi0, "exact": exact,
-            "linop": bool((not exact) and rng.random() < 0.5), "mode": "solve", "shift": shift}
+            "linop": bool((not exact) and rng.random() < 0.5), "mode": "solve", "shift": shift, "p0cplx": p0cplx}
 
 
 def case_to_spec(case, k):
